@@ -50,7 +50,7 @@
     Ctf.fillEvent q            every valueless item `(W_s, None)` becomes `(W_s, -W)`
     ctfTRSoundClass g ds o c   decidable class of conditional queries (Y0/Model/CtfTr.lean): `ctfTRLinkClass` (one world
                                across ALL ancestral components; outcomes found under their own name, over distinct
-                               vertices, none of them a condition; no self-intervention, consistent subscripts; no literal
+                               vertices; no self-intervention, consistent subscripts; no literal
                                subscript names a vertex of the components unless it names a condition) and the simplified
                                `D_*` in `ctfSoundClass`
     CondSem, cond_parts        the semantic core of Algorithm 3, free of syntax (Y0/Lemmas/CtfTrCondSem.lean,
@@ -326,8 +326,8 @@ theorem ctfTR_sound_of_parts (target : MG Name) (ds : List Domain) (o c : Event)
 /-- **C09, value clause, Algorithm 3 (ctfTR).**  Whenever `ctfTR` returns an expression `x` with an event, for a
 validated conditional query built by the public wrapper on a target graph built by `from_edges` with domains as declared,
 inside the decidable class `ctfTRSoundClass` (Y0/Model/CtfTr.lean: one world across the ancestral components, outcomes
-found under their own name and over distinct vertices, no outcome that is also a condition, no self-intervened variable,
-no literal subscript naming a summed vertex, and `D_*` in Algorithm 2's class `ctfSoundClass`) — then in EVERY family `F`
+found under their own name and over distinct vertices, no self-intervened variable, no literal subscript naming a summed
+vertex, and `D_*` in Algorithm 2's class `ctfSoundClass`) — then in EVERY family `F`
 of functional SCMs compatible with the target graph and the declared domains, for every reading `ν` of the value symbols
 and every valuation `σ` that carries the values and literal subscripts of the query (`EventReading ν σ (o ++ c)`: the
 returned event repeats the outcomes' and conditions' values on base variables; a subscript is read from the query), if
@@ -552,10 +552,9 @@ theorem ctfTR_correct_partial (target : MG Name) (ds : List Domain) (o c : Event
 --     cond:value:literal_bound (a literal subscript naming a summed vertex);
 --   * NOT DECIDED where the class is stricter than the code needs: a literal subscript that names an OUTCOME with the same
 --     value (`P(Y_x = y, X = x | Z = z)`: the denominator's sum over `X` also moves the subscript, which is harmless by
---     composition — 51 of the 54 generated cases excluded by this clause alone are accepted by the oracle), an outcome that
---     is also a condition with the same value (redundant outcome; all 156 generated cases excluded by this clause alone are
---     accepted by the oracle), two outcomes over one vertex with the same value, multi-world queries on which the vertex-wise
---     bookkeeping happens to be right.  (tools/c09_condclass.py measures these shares.)
+--     composition when the subscript sits on an outcome — 51 of the 54 generated cases excluded by this clause alone are
+--     accepted by the oracle), two outcomes over one vertex with the same value, multi-world queries on which the
+--     vertex-wise bookkeeping happens to be right.  (tools/c09_condclass.py measures these shares.)
 
 /-! ## Non-vacuity: a two-domain family on `X → Y` with a selection node on `X`
 
